@@ -14,6 +14,8 @@ func init() {
 	vpRegister("c08_decode_order", vpH_c08_decode_order)
 	vpRegister("c08_roundtrip", vpH_c08_roundtrip)
 	vpRegister("c08_exotic_keys", vpH_c08_exotic_keys)
+	vpRegister("c08_copy", vpH_c08_copy)
+	vpRegister("c08_dupkeys", vpH_c08_dupkeys)
 }
 
 // document order through DecodeYAML, UnmarshalOrdered into Map[string,string],
@@ -221,4 +223,90 @@ func vpH_c08_exotic_keys() {
 		bm, ok := back.(*Map[string, any])
 		vpAssert(derr == nil && ok && Equal(m, bm), "YAML encode then decode gives an Equal map for arbitrary string keys")
 	}
+}
+
+// Unmarshalling one ordered map into another makes an independent map: the
+// copy has the same keys, values and order, and editing either afterwards
+// (overwriting, renaming or deleting entries that exist) leaves the other one
+// exactly as it was.
+func vpH_c08_copy() {
+	src := NewMap[string, any](0)
+	n := vpInt(1, 3)
+	for i := 0; i < n; i++ {
+		src.Set("k"+string(rune('a'+i)), vpStr(1, "x-y"))
+	}
+	if vpBool() && n > 1 {
+		src.Delete("ka") // a tombstone in the source
+	}
+	var dst *Map[string, any]
+	if vpBool() {
+		dst = NewMap[string, any](0)
+	} else {
+		dst = new(Map[string, any])
+	}
+	vpAssert(Unmarshal(src, dst) == nil, "map into map unmarshals")
+	vpAssert(Equal(src, dst), "the copy has the same keys, values and order")
+	var keys []string
+	dst.Range(func(k string, _ any) error { keys = append(keys, k); return nil })
+	if len(keys) == 0 {
+		return
+	}
+	k := keys[vpInt(0, len(keys)-1)]
+	editDst := vpBool()
+	a, b := src, dst
+	if editDst {
+		a, b = dst, src
+	}
+	// a is edited, b is watched
+	watched := vpSnapshot(b)
+	switch vpInt(0, 2) {
+	case 0:
+		a.Set(k, "edited")
+	case 1:
+		a.Replace(k, "renamed", "edited")
+	default:
+		a.Delete(k)
+	}
+	vpAssert(vpUnchanged(b, watched), "editing one of the two maps leaves the other exactly as it was")
+}
+
+// A mapping node that spells the same key twice (literally, or as two
+// spellings of one canonical key) decodes to one entry: at the place of the
+// first occurrence, with the last value; the emitters then write each key once.
+func vpH_c08_dupkeys() {
+	k1, k2 := vpStr(1, "a-b"), vpStr(1, "a-b")
+	v1, v2, v3 := "1", "2", "3"
+	root := vpMapping()
+	second := vpScalar(k1)
+	if vpBool() { // another spelling of an integer key
+		k1 = "31"
+		root.Content = append(root.Content, &yaml.Node{Kind: yaml.ScalarNode, Tag: "!!int", Value: "31"}, vpScalar(v1))
+		second = &yaml.Node{Kind: yaml.ScalarNode, Tag: "!!int", Value: "0x1F"}
+	} else {
+		root.Content = append(root.Content, vpScalar(k1), vpScalar(v1))
+	}
+	vpAssume(k2 != k1)
+	root.Content = append(root.Content, vpScalar(k2), vpScalar(v2), second, vpScalar(v3))
+	got, err := DecodeYAML(root)
+	m, ok := got.(*Map[string, any])
+	vpAssert(err == nil && ok, "a mapping with a repeated key decodes")
+	if err != nil || !ok {
+		return
+	}
+	vpAssert(m.Len() == 2, "a repeated key is one entry")
+	i := 0
+	m.Range(func(k string, v any) error {
+		switch i {
+		case 0:
+			vpAssert(k == k1 && v == any(v3), "the repeated key stands where it first occurred and has its last value")
+		case 1:
+			vpAssert(k == k2 && v == any(v2), "the other key follows")
+		default:
+			vpAssert(false, "iteration yields each key once")
+		}
+		i++
+		return nil
+	})
+	b, jerr := json.Marshal(m)
+	vpAssert(jerr == nil && vpJKind(b) == 5 && vpJLen(b) == 2, "the JSON object has each key once")
 }
